@@ -1116,7 +1116,12 @@ class DestHandler:
                 self._params.fp.file_name,
                 self._params.fp.progress,
             )
-            if crc32 == self._params.fp.crc32:
+            # Data which is known to be missing (EOF file size not reached) is a failed verification
+            # as well, even if the checksum of the part received so far happens to match.
+            if crc32 == self._params.fp.crc32 and (
+                self._params.fp.file_size_eof is None
+                or self._params.fp.progress >= self._params.fp.file_size_eof
+            ):
                 file_delivery_complete = True
             else:
                 self._declare_fault(ConditionCode.FILE_CHECKSUM_FAILURE)
